@@ -110,27 +110,31 @@ func applySearchSingleQuery(colWips map[string]*ColWip, sQuery *structs.SearchQu
 	case structs.MatchAll:
 		return true
 	case structs.MatchWords:
+		// A negated match filter (NOT word) holds for the records that do not have the words,
+		// as in the query time search (filterRecordsFromSearchQuery).
+		negate := sQuery.MatchFilter.NegateMatch
 		rawVal, ok := colWips[sQuery.MatchFilter.MatchColumn]
 		if !ok {
-			return false
+			return negate
 		}
 		retVal, err := ApplySearchToMatchFilterRawCsg(sQuery.MatchFilter, rawVal.getLastRecord(), nil, sQuery.FilterIsCaseInsensitive)
 		if err != nil {
 			segStore.StoreSegmentError("applySearchSingleQuery: failed to apply match words search", log.ErrorLevel, err)
 			return false
 		}
-		return retVal
+		return retVal != negate
 	case structs.MatchWordsAllColumns:
+		negate := sQuery.MatchFilter.NegateMatch
 		for cname, colVal := range colWips {
 			if cname == tsKey {
 				continue
 			}
 			retVal, _ := ApplySearchToMatchFilterRawCsg(sQuery.MatchFilter, colVal.getLastRecord(), nil, sQuery.FilterIsCaseInsensitive)
 			if retVal {
-				return true
+				return !negate
 			}
 		}
-		return false
+		return negate
 	case structs.SimpleExpression:
 		rawVal, ok := colWips[sQuery.QueryInfo.ColName]
 		if !ok {
